@@ -963,7 +963,10 @@ class AdapterRegistry(BaseAdapterRegistry):
     def __init__(self, bases=()):
         # AdapterRegisties are invalidating registries, so
         # we need to keep track of our invalidating subregistries.
-        self._v_subregistries = weakref.WeakKeyDictionary()
+        # (``rebuild()`` runs us again on a live registry; the registries
+        # that have it as a base must keep hearing about its changes.)
+        if '_v_subregistries' not in self.__dict__:
+            self._v_subregistries = weakref.WeakKeyDictionary()
 
         super().__init__(bases)
 
